@@ -74,6 +74,8 @@ func wrapRunner(item int) randomness.TestFunc {
 		}
 		if st.sim {
 			simrt.Yield("runner." + itoa(item))
+		} else {
+			stir(uint64(len(data)*31 + item))
 		}
 		k, diff := st.identify(data)
 		var res *randomness.TestResult
